@@ -711,6 +711,43 @@ private theorem align_ok_inv {a : Aligner} {fixed : Bool} {s1 s2 : Seq} {r : Res
         · simp at h
     · simp at h
 
+/-- **sw_never_panics** — the repaired `Alignment()` never indexes out of range, whatever the
+sequences and scores: it returns a result or the explicit error (empty sequence, residue outside
+the alphabet of the chosen matrix, incompatible alphabets). -/
+theorem sw_never_panics (a : Aligner) (s1 s2 : Seq) : align a true s1 s2 ≠ Outcome.panic := by
+  simp only [align]
+  split
+  · simp
+  · rename_i hne
+    simp only [Bool.true_and, Bool.or_eq_true, List.isEmpty_iff, not_or] at hne
+    split
+    · rename_i i1 i2 hi1 hi2
+      rw [if_neg (by simp [hne.1, hne.2])]
+      have hl1 := mapM_length _ _ _ (seqToIndices_eq a s1 ▸ hi1)
+      have hl2 := mapM_length _ _ _ (seqToIndices_eq a s2 ▸ hi2)
+      have hz1 : (s1.zip i1).length = s1.length := by simp [List.length_zip]; omega
+      have hz2 : (s2.zip i2).length = s2.length := by simp [List.length_zip]; omega
+      have hp1 : 0 < s1.length := List.length_pos_iff.mpr hne.1
+      have hp2 : 0 < s2.length := List.length_pos_iff.mpr hne.2
+      have hb := fill_best_in_range a true (s1.zip i1) (s2.zip i2)
+        (by intro e; rw [e] at hz1; simp at hz1; omega) (by intro e; rw [e] at hz2; simp at hz2; omega)
+      have htot := Proofs.SWTrace.btLoop_total true a.gapopen a.gapextend
+        (fill a true (s1.zip i1) (s2.zip i2)).m (fill a true (s1.zip i1) (s2.zip i2)).t s1 s2
+        (s1.zip i1).length (s2.zip i2).length
+        (fun j hj => Proofs.SWTrace.fill_no_up_row0 a _ _ (by omega) j hj)
+        (fun i hi => Proofs.SWTrace.fill_no_left_col0 a _ _ (by omega) i hi)
+        ((fill a true (s1.zip i1) (s2.zip i2)).best.i + (fill a true (s1.zip i1) (s2.zip i2)).best.j + 2)
+        ((fill a true (s1.zip i1) (s2.zip i2)).best.i + 1) ((fill a true (s1.zip i1) (s2.zip i2)).best.j + 1) {}
+        (by omega) (by omega)
+      simp only [backTrack]
+      cases hloop : btLoop true a.gapopen a.gapextend (fill a true (s1.zip i1) (s2.zip i2)).m
+          (fill a true (s1.zip i1) (s2.zip i2)).t s1 s2
+          ((fill a true (s1.zip i1) (s2.zip i2)).best.i + (fill a true (s1.zip i1) (s2.zip i2)).best.j + 2)
+          ((fill a true (s1.zip i1) (s2.zip i2)).best.i + 1) ((fill a true (s1.zip i1) (s2.zip i2)).best.j + 1) {} with
+      | none => rw [hloop] at htot; simp at htot
+      | some v => simp
+    · simp
+
 /-- **sw_score_of_returned_rows** — for the repaired code, whenever the reported score is positive
 the two returned rows, read column by column, are an alignment whose affine-gap score under the
 configured scheme is exactly the reported score. -/
